@@ -343,7 +343,7 @@ func cmdCheck(args []string) int {
 			if it.Kind != ItemOblig {
 				continue
 			}
-			if vc.contract != nil && vc.contract.CallsitesOnly && !vc.lockOnly && !(strings.HasPrefix(it.Name, "callsite:") || strings.HasPrefix(it.Name, "cover:") || strings.HasPrefix(it.Name, "reach:")) {
+			if vc.contract != nil && vc.contract.CallsitesOnly && !vc.lockOnly && !(strings.HasPrefix(it.Name, "callsite:") || strings.HasPrefix(it.Name, "post:must-") || strings.HasPrefix(it.Name, "cover:") || strings.HasPrefix(it.Name, "reach:")) {
 				continue
 			}
 			if vc.lockOnly && !(strings.HasPrefix(it.Name, "lock:") || strings.HasPrefix(it.Name, "pre:") && strings.Contains(it.Info, "held(") || strings.HasPrefix(it.Name, "callsite:") && (strings.Contains(it.Info, "held(") || strings.Contains(it.Info, "nolocks("))) {
